@@ -139,6 +139,19 @@ claim("C14", "proof",
       "universal claim about the algorithm is validated per instance, not proved.",
       "Lean 4 proof of a certificate checker's soundness for all paths + per-instance checking of real SSA CFGs", "5 (C14)")
 
+claim("C07", "proof",
+      "The graphs of the real Degree and DegreeRange functions (20 infix, 3 prefix operators on all operand degrees and all well-formed ranges, "
+      "inf, the is_* predicates) are regenerated by executing the code on every run (Gen/ImplTables.lean). Lean proves over them (Props/C07.lean, "
+      "decide +kernel over the whole finite domain — complete, not sampled): the hand model used by the propagation model equals the code; "
+      "the code's degree equals the degree of Circom's expression algebra for every operator and operand degrees (so ~x and !x of a "
+      "non-constant x are non-quadratic); the tables are monotone, hence range lifting is sound: true degrees below the operand upper ends give "
+      "an algebra degree below the result's upper end; joins keep upper bounds. PARTIAL beyond the tables: expression/path-level soundness is "
+      "not yet a Lean theorem; it is covered by (L2) node-by-node equality of real degree annotations with the Lean propagation model and (L1) "
+      "an independent least-fixpoint analysis of the algebra over the same SSA CFG (every claim must be >= the fixpoint; CS0013 only for "
+      "right-hand sides the fixpoint accepts).",
+      "Lean kernel + standard axioms; the harness that executes the real functions; the algebra-to-MvPolynomial link is not formalised.",
+      "Lean 4 proof over tables regenerated from the running code + annotation correspondence + fixpoint oracle", "5 (C07)")
+
 ALL = ["C%02d" % i for i in range(1, 21)]
 def main():
     checks = []
